@@ -96,6 +96,16 @@ class C09(Check):
             nf = sum(S) + sum(a * b for a, b in zip(S, S[1:]))
             if nf <= (10 if tier == 'quick' else 14):
                 js.append(dict(kind='hmm', S=list(S), mode='lik'))
+        # scale probes (log form): wide epochs and long / large-magnitude models; every table entry is a fixed number except the listed ones
+        wide = [((9, 2), 100), ((10, 3), 100), ((2, 9, 2), 100)] + ([] if tier == 'quick' else [((12, 12), 100), ((3, 16, 2), 100), ((17, 2), 50)])
+        for S, mag in wide:
+            k = max(range(len(S)), key=lambda i: S[i])
+            syms = ['p%d_1' % k, 'p%d_%d' % (k, S[k] - 2)] + (['q%d_1_0' % k, 'q%d_%d_1' % (k, S[k] - 2)] if k + 1 < len(S) else ['q%d_0_1' % (k - 1), 'q%d_1_%d' % (k - 1, S[k] - 2)])
+            for variant in (0, 1):
+                js.append(dict(kind='hmm', S=list(S), mode='log', fixed=mag, variant=variant, syms=syms))
+        for T, mag in ([(10, 1500)] if tier == 'quick' else [(8, 1500), (10, 1500), (12, 2500), (12, 100)]):
+            for variant in (0, 2):
+                js.append(dict(kind='hmm', S=[2] * T, mode='log', fixed=mag, variant=variant, syms=['p1_0', 'q%d_1_0' % (T - 2), 'p%d_1' % (T - 1)]))
         js.sort(key=lambda j: -sum(a * b for a, b in zip(j['S'], j['S'][1:])) * (2 if j['mode'] == 'lik' else 1))
         return js
 
@@ -107,6 +117,14 @@ class C09(Check):
         T = len(S)
 
         def val(name):
+            if job.get('fixed') and name not in job['syms']:
+                # deterministic pseudo-random log-likelihood of either sign: dyadic, in [-mag, mag/4] (variant 1: in [-mag/4, mag])
+                import zlib
+                h = zlib.crc32(('%s/%d' % (name, job['variant'])).encode()) % 4096
+                v = (h / 4096.0) * 1.25 - 1.0
+                if job['variant'] == 2:      # every factor very unlikely: log-likelihoods in [-mag, -mag/2], accumulated costs grow by ~mag per factor
+                    return -float(job['fixed']) * (0.5 + h / 8192.0)
+                return float(job['fixed']) * (v if job['variant'] == 0 else -v)
             if inp is not None:
                 v = inp[name]
                 return float(v)
